@@ -11,8 +11,11 @@ import (
 )
 
 func main() {
-	sizes := []int{2048, 2048, 2048, 2048, 3072, 3072, 4096, 4096}
+	sizes := []int{2048, 2048, 2048, 2048, 3072, 3072, 4096, 4096, 2047, 3071} // the last two: modulus bit length not a multiple of 8
 	for i, s := range sizes {
+		if _, err := os.Stat(fmt.Sprintf("gen/keys/k%d_%d.pem", i, s)); err == nil {
+			continue // keep the committed keys
+		}
 		k, err := rsa.GenerateKey(rand.Reader, s)
 		if err != nil {
 			panic(err)
